@@ -573,7 +573,11 @@ fn gen_doc_case(c: &mut Ctx, r: &mut Rng, tables: &[(&str, [Option<u16>; 256])])
                         // every fourth string is made of the characters the literal-string writer has to treat specially
                         // (parentheses balanced / unbalanced in any order, backslash) and a letter
                         let special: Vec<char> = ['(', ')', '\\', '(', 'a'].iter().cloned().filter(|ch| rep.contains(ch)).collect();
-                        let n = r.usize(12); let s: String = if r.chance(1, 4) && !special.is_empty() { c.count("extract.structural_string"); (0..2 + r.usize(7)).map(|_| *r.pick(&special)).collect() } else { (0..n).map(|_| *r.pick(&rep)).collect() };
+                        let n = r.usize(12); let s: String = if r.chance(1, 16) && rep.contains(&'(') && rep.contains(&')') && rep.contains(&'a') {
+                            // balanced parentheses nested up to and BEYOND what the literal-string parser accepts unescaped (100 levels)
+                            let d = *r.pick(&[99usize, 100, 101, 102, 128, 300]); c.count("extract.deep_parentheses");
+                            format!("{}a{}", "(".repeat(d), ")".repeat(d))
+                        } else if r.chance(1, 4) && !special.is_empty() { c.count("extract.structural_string"); (0..2 + r.usize(7)).map(|_| *r.pick(&special)).collect() } else { (0..n).map(|_| *r.pick(&rep)).collect() };
                         let bytes = encode_ref(&t, &s);
                         ops.push(Operation::new("Tj", vec![Object::String(bytes, if r.chance(1, 4) { StringFormat::Hexadecimal } else { StringFormat::Literal })]));
                         chunk.push_str(&s);
